@@ -19,8 +19,10 @@ LEVEL_TEXT = ("Machine-checked proof (Coq, closed under the global context) over
               "block size >= 8, MAC size, classic / encrypt-then-MAC / AEAD / cleartext framing, compression "
               "on or off, any sequence of messages, key switches and seqno resets, a receiver keyed like the "
               "sender decodes exactly the sent payloads in order with nothing left over and with equal sequence "
-              "numbers (mod 2^32), for every chunking of the byte stream, and that a strict prefix of a "
-              "packet blocks; cipher/AEAD/zlib laws are explicit premises. The model is tied to packet.py by a "
+              "numbers (mod 2^32), for every chunking of the byte stream and every placement of socket timeouts "
+              "(re-key pending or not), that a strict prefix of a packet blocks, that write_all hands the socket "
+              "exactly the packet for every script of partial sends / timeouts / EAGAIN, and that AEAD nonces of "
+              "a key epoch are pairwise distinct; cipher/AEAD/zlib laws are explicit premises. The model is tied to packet.py by a "
               "differential run of real Packetizer objects with toy engines against the model every run; the "
               "real primitives are exercised by an implementation-level round-trip search over all suites.")
 LEVEL_NOTE = ("Trusted: Coq kernel + vm_compute; hand-written model coq/Model/C01.v validated by the "
@@ -346,6 +348,117 @@ def real_timeouts(ctx, rng, suite, zlib_on):
                        "sent": [p.hex() for p in payloads]},
                  expected={"count": len(payloads), "fin": [-1]},
                  observed={"count": len(got), "rekey_notices": notices, "fin": fin})
+
+
+class ScriptedSendSocket:
+    """send() follows a script: ("send", k) accepts min(k, len) bytes, "timeout" raises socket.timeout,
+    "eagain" raises socket.error(EAGAIN), "error" raises socket.error(EPIPE); exhausted: accepts everything."""
+
+    def __init__(self, events):
+        self.events = list(events)
+        self.wire = bytearray()
+
+    def send(self, data):
+        import errno
+        import socket
+        if not self.events:
+            self.wire += data
+            return len(data)
+        e = self.events.pop(0)
+        if e == "timeout":
+            raise socket.timeout()
+        if e == "eagain":
+            raise socket.error(errno.EAGAIN, "try again")
+        if e == "error":
+            raise socket.error(errno.EPIPE, "broken pipe")
+        k = min(e[1], len(data))
+        self.wire += data[:k]
+        return k
+
+    def settimeout(self, t):
+        pass
+
+    def close(self):
+        pass
+
+
+def gen_send_events(rng, total):
+    evs = []
+    for _ in range(rng.randrange(0, 14)):
+        k = rng.randrange(12)
+        if k < 6:
+            evs.append(("send", rng.choice([0, 1, 2, 3, 5, 8, 16, rng.randrange(0, max(1, total) + 2), total])))
+        elif k < 9:
+            evs.append("timeout")
+        elif k < 11:
+            evs.append("eagain")
+        else:
+            evs.append("error")
+    if rng.random() < 0.1:
+        evs = [("send", 0)] * 12 + evs          # the zero-return counter
+    return evs
+
+
+def coq_send_events(evs):
+    m = {"timeout": "WTimeout", "eagain": "WEagain", "error": "WError"}
+    return "[" + ";".join(m[e] if isinstance(e, str) else "(WSend %d)" % e[1] for e in evs) + "]"
+
+
+def run_write_all(ctx, rng):
+    """Packetizer.write_all (directly, or through send_message) over a scripted socket."""
+    from paramiko.packet import Packetizer
+    through_send = rng.random() < 0.4
+    if through_send:
+        cfg = gen_cfg(rng)
+        cfg["iv"] = cfg["iv"][:4] + [0] * 8
+        cap = CaptureSocket()
+        ref = Packetizer(cap)
+        ref._initial_kex_done = True
+        install_out(ref, cfg)
+        payload = gen_payload(rng, cfg["bs"], 120)
+        st = rng.getstate()
+        with PinnedUrandom(rng):
+            ref.send_message(mkmsg(payload))
+        data = b"".join(cap.sent)               # the packet write_all must put on the wire
+    else:
+        data = bytes(rng.randrange(256) for _ in range(rng.choice([1, 2, 7, 16, 40, rng.randrange(1, 200)])))
+    evs = gen_send_events(rng, len(data))
+    sock = ScriptedSendSocket(evs)
+    p = Packetizer(sock)
+    p._initial_kex_done = True
+    ok = 0
+    if through_send:
+        install_out(p, cfg)
+        rng.setstate(st)
+        with PinnedUrandom(rng):
+            try:
+                p.send_message(mkmsg(payload))
+            except EOFError:
+                ok = 1
+    else:
+        try:
+            p.write_all(data)
+        except EOFError:
+            ok = 1
+    wire = bytes(sock.wire)
+    desc = {"packet": data.hex(), "events": [e if isinstance(e, str) else list(e) for e in evs],
+            "through_send_message": through_send}
+    if (ok == 0 and wire != data) or (ok == 1 and data[:len(wire)] != wire):
+        ctx.fail("write-all-loss", "write_all did not hand the socket exactly the packet bytes in order "
+                 "(partial send followed by timeout/EAGAIN)", case=desc,
+                 expected=data.hex() if ok == 0 else "a prefix of " + data.hex(),
+                 observed={"wire": wire.hex(), "raised_eof": bool(ok)})
+    ctx.count(("write", data, repr(evs)), nontrivial=len(evs) > 0, kind="write-all" + ("-send" if through_send else ""))
+    return "(%s, %s)" % (coq(list(data)), coq_send_events(evs)), [len(wire)] + list(wire) + [ok], desc
+
+
+def safe_mismatches(ctx, *a, **kw):
+    """Model evaluation must never prevent the implementation-level oracles from running."""
+    try:
+        return ctx.model_mismatches(*a, **kw)
+    except Exception as e:  # noqa
+        ctx.corr_broken.append({"what": "model evaluation failed", "error": repr(e)[-1500:]})
+        return []
 
 
 class PinnedUrandom:
@@ -782,7 +895,8 @@ def run(ctx):
                 "classic/ETM/AEAD/cleartext, sdctr, toy compression, seq0 near 2^32 with and without "
                 "initial_kex_done, IV counters near 2^64, random read fragmentation; socket timeouts at random "
                 "positions (mid-header included) with need_rekey set or not, run loop continuing on "
-                "NeedRekeyException; real suites: every cipher x "
+                "NeedRekeyException; write_all over scripted sockets (partial sends, timeouts, EAGAIN, errors, "
+                "zero returns); real suites: every cipher x "
                 "MAC x zlib on/off with random keys, fragmentation, key switch; a case is non-trivial when distinct")
     ctx.trusted += ["model coq/Model/C01.v is hand-written; tied to paramiko/packet.py by this differential run "
                     "(vm_compute of the model's own definitions with toy primitives, no extraction)",
@@ -795,7 +909,7 @@ def run(ctx):
     ctx.prove()
 
     # ---- 1. toy correspondence ------------------------------------------------
-    n = 1200 if ctx.thorough else 110
+    n = 1200 if ctx.thorough else 90
     cases = []
     descs = []
     for _ in range(n):
@@ -804,7 +918,7 @@ def run(ctx):
             continue
         cases.append((case, expected))
         descs.append(desc)
-    bad = ctx.model_mismatches("run_session", "(Z * bool * list epoch)", cases, shard=60)
+    bad = safe_mismatches(ctx, "run_session", "(Z * bool * list epoch)", cases, shard=60)
     for i in bad[:3]:
         ctx.disagree("Packetizer wire bytes / delivered messages differ from the model", case=descs[i],
                      impl=cases[i][1])
@@ -819,13 +933,26 @@ def run(ctx):
             continue
         cases.append((case, expected))
         descs.append(desc)
-    bad = ctx.model_mismatches("run_recv_t", "(Z * bool * tcfg * bool * list sev)", cases, shard=60)
+    bad = safe_mismatches(ctx, "run_recv_t", "(Z * bool * tcfg * bool * list sev)", cases, shard=60)
     for i in bad[:3]:
         ctx.disagree("read_message under socket timeouts / pending re-key differs from the model", case=descs[i],
                      impl=cases[i][1])
     suites = real_suites()
     for suite in (suites if ctx.thorough else [suites[(ctx.seed * 5 + k * 7) % len(suites)] for k in range(6)]):
         real_timeouts(ctx, rng, suite, rng.random() < 0.3)
+
+    # ---- 1c. send side: write_all over a scripted socket -----------------------------
+    cases, descs = [], []
+    for _ in range(1500 if ctx.thorough else 120):
+        case, expected, desc = run_write_all(ctx, rng)
+        cases.append((case, expected))
+        descs.append(desc)
+    bad = safe_mismatches(ctx, "run_write", "(list Z * list wev)", cases)
+    for i in bad[:3]:
+        ctx.disagree("write_all differs from the model", case=descs[i], impl=cases[i][1])
+    from paramiko.common import xffffffff
+    if xffffffff != 2 ** 32 - 1:
+        ctx.disagree("common.xffffffff is not 2^32 - 1 (the model's sequence-number modulus)", impl=xffffffff)
 
     # ---- 2. constant_time_bytes_eq ----------------------------------------------
     pairs = cteq_cases(rng, 200 if ctx.thorough else 100)
@@ -834,7 +961,7 @@ def run(ctx):
         v = util.constant_time_bytes_eq(a, b)
         cc.append(("(%s, %s)" % (coq(list(a)), coq(list(b))), [1 if v else 0]))
         ctx.count(("cteq", a, b), nontrivial=len(a) > 0, kind="cteq")
-    bad = ctx.model_mismatches("run_cteq", "(list Z * list Z)", cc)
+    bad = safe_mismatches(ctx, "run_cteq", "(list Z * list Z)", cc)
     for i in bad[:3]:
         ctx.disagree("constant_time_bytes_eq differs from model", case={"a": pairs[i][0], "b": pairs[i][1]},
                      impl=cc[i][1])
